@@ -142,6 +142,8 @@ pub struct Pool2 {
     pub funds_mode_next: std::cell::Cell<u8>,
     /// generator hint: the next step should be a fee collection (a swap just put the pending fee on a boundary)
     pub want_collect: bool,
+    /// scripted steps to emit before anything else (everybody exits, then somebody deposits)
+    pub queue: Vec<Step>,
 }
 
 pub fn pool_fee(f: &[String; 3]) -> PoolFee {
@@ -655,6 +657,7 @@ impl Scenario for Pool2 {
             rev_next: std::cell::Cell::new(false),
             funds_mode_next: std::cell::Cell::new(0),
             want_collect: false,
+            queue: vec![],
         };
         // liquidity for the helper pair (B,C) so that router hops have something to trade against
         let msgs = s.provide_msgs(&s.pair2.clone(), [1, 2], [5_000_000, 5_000_000], None, None);
